@@ -60,3 +60,37 @@ Proof.
   split; [vm_compute; reflexivity|].
   eexists. split; [vm_compute; reflexivity|]. split; vm_compute; reflexivity.
 Qed.
+
+(* ------------------------------------------------------------------ restart_taken *)
+From KV Require Import Proofs.WorldRest2.
+
+(* over runs, with the configuration of the run *)
+Theorem no_restart_left_at_rest c acts e :
+  valid_cfg c -> no_teardown acts -> quiescent (run c acts) -> w_exp (run c acts) = Some e -> restart_enabled_e c e = false.
+Proof.
+  intros V NT Q He. assert (Cf : w_cfg (run c acts) = c) by (unfold run; now rewrite run_cfg).
+  rewrite <- Cf. exact (quiescent_no_restart _ e (Inv_reachable c acts V NT) Q He).
+Qed.
+
+(* the at-rest clause "no restart is left enabled" on a projected quiescent reachable state *)
+Theorem restart_taken_model c acts :
+  valid_cfg c -> no_teardown acts -> quiescent (run c acts) ->
+  forall k, k_cfg k = c -> last_state k = project (run c acts) -> restart_taken k = true.
+Proof.
+  intros V NT Qu k Hc Hk. unfold restart_taken. destruct (k_quiet k); [|reflexivity].
+  rewrite Hk, Hc. assert (Cf : w_cfg (run c acts) = c) by (unfold run; now rewrite run_cfg).
+  destruct (w_exp (run c acts)) as [e|] eqn:He.
+  - rewrite <- Cf at 1. rewrite (restart_enabled_project _ e He).
+    rewrite (quiescent_no_restart _ e (Inv_reachable c acts V NT) Qu He). reflexivity.
+  - unfold restart_enabled. cbn [project pj_exp]. now rewrite He.
+Qed.
+
+(* Non-vacuity: the F18 history contains a raise of maxTrialCount and ends quiescent with an experiment. *)
+Example restart_taken_premises_hold :
+  valid_cfg f18_cfg /\ no_teardown f18_acts /\ quiescent (run f18_cfg f18_acts) /\
+  existsb (fun a => match a with UserRaiseMax _ => true | _ => false end) f18_acts = true /\
+  exists e, w_exp (run f18_cfg f18_acts) = Some e /\ e_max e = Some 2.
+Proof.
+  destruct f18_premises_hold as (V&NT&Ra&Q&_&e&s&He&Hm&_).
+  split; [exact V|]. split; [exact NT|]. split; [exact Q|]. split; [exact Ra|]. exists e. split; assumption.
+Qed.
